@@ -29,6 +29,7 @@ type obj struct {
 	dw, np int // struct: data words, pointers; composite: per element
 	n      int // list length
 	addr   int // word address of the first content word (composite: first element)
+	lie    int // composite: 1 = the list pointer declares 0 words, 2 = half of what the tag implies
 	slots  []*obj
 }
 
@@ -98,7 +99,14 @@ func ptrWord(from int, t *obj) uint64 {
 	default:
 		tag := t.addr - 1
 		off := int32(tag - from - 1)
-		return uint64(uint32(off)<<2) | 1 | 7<<32 | uint64(t.n*(t.dw+t.np))<<35
+		wc := t.n * (t.dw + t.np)
+		switch t.lie { // an inconsistent encoding: the tag word still announces n elements inside the segment
+		case 1:
+			wc = 0
+		case 2:
+			wc /= 2
+		}
+		return uint64(uint32(off)<<2) | 1 | 7<<32 | uint64(wc)<<35
 	}
 }
 
@@ -115,9 +123,17 @@ func (r *run) buildGraph(chain bool) *graph {
 	n := 2 + s.Choice("nobjs", 4)
 	for i := 0; i < n; i++ {
 		o := &obj{id: i}
-		k := s.Choice("okind", 4)
+		// okind 4, 5: a composite list whose pointer understates the word count (the tag decides
+		// what is handed out, so the tag decides what is charged)
+		k := s.Choice("okind", 6)
+		lie := 0
+		if k >= 4 {
+			lie, k = k-3, 2
+			s.Probe("composite_list_pointer_understates_size")
+		}
 		if i == 0 || (chain && k == 3) {
 			k = 0 // the root must be a struct; a chain has no leaves
+			lie = 0
 		}
 		switch k {
 		case 0:
@@ -126,6 +142,7 @@ func (r *run) buildGraph(chain bool) *graph {
 			o.kind, o.n = oPtrList, 1+s.Choice("pn", 3)
 		case 2:
 			o.kind, o.n, o.dw, o.np = oCompList, 1+s.Choice("cn", 3), s.Choice("cdw", 2), 1+s.Choice("cnp", 2)
+			o.lie = lie
 		case 3: // list of zero-sized structs: every element must still be charged one word
 			o.kind, o.n = oCompList, []int{1, 2, 5, 100, 1000}[s.Choice("zn", 5)]
 			s.Probe("zero_sized_element_list")
